@@ -141,31 +141,31 @@ fn gen_query(r: &mut Rng, els: &[PathEl]) -> Point {
 fn poly_y(s: &PathSeg, t: f64) -> f64 {
     s.eval(t).y
 }
-/// reference contribution of a *monotone* piece (no solver): `None` when the piece is not monotone in y on the
-/// sampled parameters (then nothing is claimed)
-fn ref_piece(s: &PathSeg, p: Point) -> Option<i32> {
+/// reference contribution of a *monotone* piece (no solver) and the horizontal distance of p from the crossing
+/// (infinite when only comparisons decide)
+fn ref_piece_margin(s: &PathSeg, p: Point) -> (i32, f64) {
     let (st, en) = seg_ends(s);
     let sign = if en.y > st.y {
         if p.y < st.y || p.y >= en.y {
-            return Some(0);
+            return (0, f64::INFINITY);
         }
         -1
     } else if en.y < st.y {
         if p.y < en.y || p.y >= st.y {
-            return Some(0);
+            return (0, f64::INFINITY);
         }
         1
     } else {
-        return Some(0);
+        return (0, f64::INFINITY);
     };
     let cs = ctrl(s);
     let minx = cs.iter().fold(f64::INFINITY, |m, c| m.min(c.x));
     let maxx = cs.iter().fold(f64::NEG_INFINITY, |m, c| m.max(c.x));
     if p.x < minx {
-        return Some(0);
+        return (0, f64::INFINITY);
     }
     if p.x >= maxx {
-        return Some(sign);
+        return (sign, f64::INFINITY);
     }
     // y(t) - p.y changes sign on [0,1] (weakly): bisection
     let up = en.y > st.y;
@@ -181,7 +181,15 @@ fn ref_piece(s: &PathSeg, p: Point) -> Option<i32> {
     }
     let t = 0.5 * (lo + hi);
     let x = s.eval(t).x;
-    Some(if p.x >= x { sign } else { 0 })
+    (if p.x >= x { sign } else { 0 }, (p.x - x).abs())
+}
+fn ref_piece(s: &PathSeg, p: Point) -> Option<i32> {
+    Some(ref_piece_margin(s, p).0)
+}
+/// y is monotone along the piece on 64 samples (pieces cut at the computed extrema are, up to rounding)
+fn sampled_monotone(s: &PathSeg) -> bool {
+    let ys: Vec<f64> = (0..=64).map(|i| s.eval(i as f64 / 64.0).y).collect();
+    ys.windows(2).all(|w| w[0] <= w[1]) || ys.windows(2).all(|w| w[0] >= w[1])
 }
 
 /// the coefficients the code hands to the cubic solver for a cubic piece
@@ -1151,6 +1159,66 @@ fn law_pieces_share_endpoints(a: &[f64]) -> Option<(String, String)> {
     None
 }
 
+/// L10: the per-piece ray cast (hook) on the implementation's monotone pieces against the bisection reference,
+/// query points over the whole x-extent of the control polygon (between end points and control points included)
+fn g_piece(r: &mut Rng) -> Vec<f64> {
+    let s = match r.below(4) {
+        0 => {
+            // bulging quadratic: control point beyond both end points in x
+            let (a, b) = (Point::new(gen53(r), gen53(r)), Point::new(gen53(r), gen53(r)));
+            let cx = a.x.max(b.x) + r.uniform(0.5, 30.0) * if r.bool() { 1.0 } else { -1.0 };
+            PathSeg::Quad(QuadBez::new(a, Point::new(cx, r.uniform(a.y.min(b.y), a.y.max(b.y))), b))
+        }
+        1 => {
+            let (a, b) = (Point::new(gen53(r), gen53(r)), Point::new(gen53(r), gen53(r)));
+            let (c1x, c2x) = (a.x.max(b.x) + r.uniform(-10.0, 40.0), a.x.min(b.x) - r.uniform(-10.0, 40.0));
+            let (lo, hi) = (a.y.min(b.y), a.y.max(b.y));
+            PathSeg::Cubic(CubicBez::new(a, Point::new(c1x, r.uniform(lo, hi)), Point::new(c2x, r.uniform(lo, hi)), b))
+        }
+        _ => gen_wseg(r),
+    };
+    let ps = pieces_req(&s);
+    let pc = *r.pick(&ps);
+    let cs = ctrl(&pc);
+    let (st, en) = seg_ends(&pc);
+    let minx = cs.iter().fold(f64::INFINITY, |m, c| m.min(c.x));
+    let maxx = cs.iter().fold(f64::NEG_INFINITY, |m, c| m.max(c.x));
+    let y = match r.below(8) {
+        0 => st.y,
+        1 => en.y,
+        _ => r.uniform(st.y.min(en.y), st.y.max(en.y)),
+    };
+    let x = match r.below(6) {
+        0 => cs[r.below(cs.len() as u64) as usize].x,
+        1 => maxx + 1.0,
+        2 => minx - 1.0,
+        _ => r.uniform(minx, maxx),
+    };
+    let mut v = enc_seg(&pc);
+    v.push(x);
+    v.push(y);
+    v
+}
+fn law_piece_reference(a: &[f64]) -> Option<(String, String)> {
+    let (pc, rest) = dec_seg(a);
+    let p = Point::new(rest[0], rest[1]);
+    if !sampled_monotone(&pc) {
+        return None;
+    }
+    let (want, margin) = ref_piece_margin(&pc, p);
+    let sc = ctrl(&pc).iter().fold(1e-300f64, |m, c| m.max(c.x.abs()).max(c.y.abs()));
+    if margin < 1e-6 * sc {
+        return None;
+    }
+    let got = pc.verif_winding_inner(p);
+    if got != want {
+        let tiny = matches!(pc, PathSeg::Cubic(c) if tiny_leading(&c, p));
+        let class = if tiny { "winding:cubic-solver-tiny-leading-coefficient".to_string() } else { format!("winding:piece:{}", kind(&pc)) };
+        return fail(&class, format!("winding_inner({:?}, {:?}) = {} but the crossing found by bisection gives {} (horizontal distance {:e})", pc, p, got, want, margin));
+    }
+    None
+}
+
 fn laws() -> Vec<Law> {
     vec![
         Law { name: "polygon_exact", gen: g_polygon, check: law_polygon_exact, weight: 8 },
@@ -1162,6 +1230,7 @@ fn laws() -> Vec<Law> {
         Law { name: "raise", gen: g_curved, check: law_raise, weight: 3 },
         Law { name: "contains_views", gen: g_any, check: law_contains_views, weight: 3 },
         Law { name: "pieces_share_endpoints", gen: g_seg_only, check: law_pieces_share_endpoints, weight: 3 },
+        Law { name: "piece_reference", gen: g_piece, check: law_piece_reference, weight: 6 },
     ]
 }
 
